@@ -138,6 +138,19 @@ theorem c18_invalid_keeps_previous (es : List ε) (hes : ∀ e ∈ es, P.admissi
     show (Obs.next (desired (es.map (P.obs · s))) (P.obs e s)).toList = _
     unfold Provider.obs; split <;> simp [hshow, Obs.next]
 
+/-- ... and the digest remembered for the source stays what it was (so the next usable version is compared with the
+version that is still loaded, not with the one that could not be used). -/
+theorem c18_invalid_keeps_digest (es : List ε) (hes : ∀ e ∈ es, P.admissible e) (e : ε) (he : P.admissible e)
+    (s : σ) (hshow : P.shows e s = .noinfo) :
+    (P.after (es ++ [e])).book.get s = (P.after es).book.get s := by
+  have hes' : ∀ x ∈ es ++ [e], P.admissible x := by
+    intro x hx; rcases List.mem_append.mp hx with hx | hx
+    · exact hes x hx
+    · simp only [List.mem_singleton] at hx; exact hx ▸ he
+  rw [(history P hP _ hes').2.2 s, (history P hP es hes).2.2 s, List.map_append, desired, List.foldl_append]
+  show Obs.next (desired (es.map (P.obs · s))) (P.obs e s) = _
+  unfold Provider.obs; split <;> simp [hshow, Obs.next, desired]
+
 /-- **Removed or emptied sources are unloaded**: if the input shows a source gone and the processor does not refuse,
 exactly one `OnDeleted` is made if something was loaded (none otherwise) and nothing is loaded for it afterwards. -/
 theorem c18_removed_unloaded (es : List ε) (hes : ∀ e ∈ es, P.admissible e) (e : ε) (he : P.admissible e) (s : σ)
@@ -177,6 +190,108 @@ theorem c18_repeated_no_call (es : List ε) (hes : ∀ e ∈ es, P.admissible e)
   simpa using this
 
 end
+
+/-! ## a new version that is received incompletely
+
+The fetch outcome "status 200, then the body ends before its announced end" (connection lost while the rule set is
+transferred, `Content-Length` larger than what arrives, chunked transfer broken off inside a chunk or before the
+terminating chunk; for cloud_blob: the GET of an object that is listed and whose attributes were read breaks off) is an
+instance of "invalid new version", not of "communication error": something arrived, and it is not a usable rule set.
+The latitude the property leaves for communication errors (keep or unload) does not apply; the clause
+`c18_invalid_keeps_previous` does, and is stated here explicitly for this outcome. -/
+
+/-- **http_endpoint: a partially received version leaves everything as it was.**  After every history of polls of any
+number of endpoints (any outcomes, any refusal pattern), a poll whose fetch outcome is a proper prefix of a valid
+document (`HttpOutcome.incomplete`) makes no processor call at all, leaves the rule sets active in the repository and
+the digests remembered — of the polled endpoint and of every other one — exactly as they were, and what is loaded for
+every source is still the latest valid content the history before shows for it. -/
+theorem c18_partial_response_keeps_previous (es : List (HttpEvent σ)) (e : HttpEvent σ)
+    (hpart : e.outcome.incomplete = true) :
+    (httpStep ((httpEndpoint : Provider σ _).after es) e).calls = [] ∧
+    ((httpEndpoint : Provider σ _).after (es ++ [e])).active = ((httpEndpoint : Provider σ _).after es).active ∧
+    ((httpEndpoint : Provider σ _).after (es ++ [e])).book = ((httpEndpoint : Provider σ _).after es).book ∧
+    ∀ s, loaded ((httpEndpoint : Provider σ _).after (es ++ [e])).active s =
+      (desired (es.map ((httpEndpoint : Provider σ _).obs · s))).toList := by
+  have hstep : ∀ st : St σ, httpStep st e = Out.failed st := by
+    intro st
+    unfold httpStep
+    cases ho : e.outcome <;> simp_all [HttpOutcome.incomplete]
+  have hrun : (httpEndpoint : Provider σ _).after (es ++ [e]) = (httpEndpoint : Provider σ _).after es := by
+    show run httpStep St.init (es ++ [e]) = run httpStep St.init es
+    rw [run_append, run_cons, run_nil, hstep]; rfl
+  refine ⟨by rw [hstep]; rfl, by rw [hrun], by rw [hrun], ?_⟩
+  intro s
+  rw [hrun]
+  exact c18_converges httpEndpoint c18_http_endpoint_correct es (fun _ _ => trivial) s
+
+/-- the same as an instance of the clause of the property: such a poll shows nothing usable about any source -/
+theorem c18_partial_response_is_invalid (e : HttpEvent σ) (hpart : e.outcome.incomplete = true) (s : σ) :
+    (httpEndpoint : Provider σ _).shows e s = .noinfo := by
+  show (if e.id = s then e.outcome.obs else Obs.noinfo) = Obs.noinfo
+  cases ho : e.outcome <;> simp_all [HttpOutcome.incomplete, HttpOutcome.obs]
+
+/-- a poll that finds blob `s` but cannot read its body to the end shows nothing usable about `s` -/
+theorem c18_partial_blob_is_invalid (e : BlobEvent σ) (he : (cloudBlob : Provider σ _).admissible e) (s : σ)
+    (hpart : e.incompleteFor s) : (cloudBlob : Provider σ _).shows e s = .noinfo := by
+  obtain ⟨hb, hf⟩ := hpart
+  show BlobEvent.raw e s = .noinfo
+  unfold BlobEvent.raw
+  simp only [hb, Bool.not_true, Bool.false_eq_true, if_false]
+  cases hfetch : e.fetch with
+  | cancelled => rw [hfetch] at hf; exact hf.elim
+  | comm => rw [hfetch] at hf; exact hf.elim
+  | internal => rw [hfetch] at hf; exact hf.elim
+  | single id b =>
+    rw [hfetch] at hf
+    cases b with
+    | none => exact hf.elim
+    | some b =>
+      cases b <;> simp_all [BlobState.incomplete, blobRuleSets]
+  | listing items =>
+    rw [hfetch] at hf
+    obtain ⟨b, hmem, hinc⟩ := hf
+    have hd : (items.map (·.1)).Nodup := by
+      have := he.1; rw [hfetch] at this; exact this
+    obtain ⟨h, rfl⟩ : ∃ h, b = .truncated h := by
+      cases b <;> simp_all [BlobState.incomplete]
+    -- the one entry of the listing for `s` is the incomplete one
+    have key : ∀ (l : List (σ × BlobState)), (l.map (·.1)).Nodup → (s, BlobState.truncated h) ∈ l →
+        ∀ rss, blobRuleSets (.listing l) = some rss → rss.find? (fun p => p.1 = s) = some (s, none) := by
+      intro l
+      induction l with
+      | nil => intro _ hm; simp at hm
+      | cons a l ih =>
+        intro hn hm rss hr
+        obtain ⟨a1, a2⟩ := a
+        simp only [blobRuleSets, Option.some.injEq] at hr
+        subst hr
+        simp only [List.map_cons, List.nodup_cons] at hn
+        rcases List.mem_cons.mp hm with heq | hm'
+        · simp only [Prod.mk.injEq] at heq
+          obtain ⟨rfl, rfl⟩ := heq
+          simp
+        · have hne : a1 ≠ s := by
+            intro e1; subst e1
+            exact hn.1 (List.mem_map_of_mem (f := (·.1)) hm')
+          have ih' := ih hn.2 hm' _ rfl
+          cases a2 <;> simp only [List.filterMap_cons, List.find?, hne, decide_false] <;> exact ih'
+    cases hrs : blobRuleSets (.listing items) with
+    | none => simp [blobRuleSets] at hrs
+    | some rss => simp only []; rw [key items hd hmem rss hrs]
+
+/-- **cloud_blob: a blob whose GET breaks off mid-body keeps its rule set.**  After every history of polls of any
+number of buckets, a poll that finds blob `s` (listed, attributes read) but receives its body incompletely makes no
+processor call for `s`, leaves what is loaded for `s` and the digest remembered for `s` as they were — while the other
+blobs of the bucket are applied as usual (`c18_calls_exact`, `c18_converges` hold for them). -/
+theorem c18_partial_blob_keeps_previous (es : List (BlobEvent σ))
+    (hes : ∀ e ∈ es, (cloudBlob : Provider σ _).admissible e) (e : BlobEvent σ)
+    (he : (cloudBlob : Provider σ _).admissible e) (s : σ) (hpart : e.incompleteFor s) :
+    callsFor (blobStep ((cloudBlob : Provider σ _).after es) e).calls s = [] ∧
+    loaded ((cloudBlob : Provider σ _).after (es ++ [e])).active s = loaded ((cloudBlob : Provider σ _).after es).active s ∧
+    ((cloudBlob : Provider σ _).after (es ++ [e])).book.get s = ((cloudBlob : Provider σ _).after es).book.get s := by
+  have hshow := c18_partial_blob_is_invalid e he s hpart
+  obtain ⟨h1, h2⟩ := c18_invalid_keeps_previous cloudBlob c18_cloud_blob_correct es hes e he s hshow
+  exact ⟨h1, h2, c18_invalid_keeps_digest cloudBlob c18_cloud_blob_correct es hes e he s hshow⟩
 
 /-! ## file_system: the rule files present at start -/
 
@@ -305,6 +420,36 @@ def httpHistory : List (HttpEvent String) :=
 example : (httpEndpoint.after (httpHistory.take 2)).active = [("u", 1)] ∧
     (httpEndpoint.after (httpHistory.take 3)).active = [] ∧ (httpEndpoint.after httpHistory).active = [("u", 1)] := by
   decide
+
+/-- two endpoints loaded; then version 2 of `u` is on its way and the body breaks off: the hypothesis of
+`c18_partial_response_keeps_previous` holds, nothing is called, version 1 stays active and remembered -/
+def httpLoaded : List (HttpEvent String) := [⟨"u", .valid 1, []⟩, ⟨"w", .valid 7, []⟩]
+def httpCutOff : HttpEvent String := ⟨"u", .truncated 2, []⟩
+
+example : httpCutOff.outcome.incomplete = true := rfl
+example : (httpStep (httpEndpoint.after httpLoaded) httpCutOff).calls = [] ∧
+    (httpEndpoint.after (httpLoaded ++ [httpCutOff])).active = [("u", 1), ("w", 7)] ∧
+    (httpEndpoint.after (httpLoaded ++ [httpCutOff])).book = [("u", 1), ("w", 7)] := by decide
+/-- the complete version 2 afterwards is an update of version 1 (the digest remembered is still the one of version 1) -/
+example : (httpStep (httpEndpoint.after (httpLoaded ++ [httpCutOff])) ⟨"u", .valid 2, []⟩).calls =
+    [(.updated "u" 2, true)] := by decide
+/-- in contrast, no answer at all (the latitude of the property: the code takes it for "source gone") -/
+example : (httpEndpoint.after (httpLoaded ++ [⟨"u", .network, []⟩])).active = [("w", 7)] := by decide
+/-- what the statement excludes: had the incomplete answer been taken for a communication error, `u` would be unloaded -/
+example : (httpUpdated [] (httpEndpoint.after httpLoaded) "u" none).calls = [(.deleted "u", true)] := by decide
+
+/-- a bucket: the GET of `x` breaks off mid-body while `y` changes and `z` is removed -/
+def blobCutOff : BlobEvent String := ⟨fun _ => true, .listing [("x", .truncated 9), ("y", .valid 4)], []⟩
+
+example : (cloudBlob : Provider String _).admissible blobCutOff := by simp only [cloudBlob]; decide
+example : blobCutOff.incompleteFor "x" := ⟨rfl, .truncated 9, by simp, rfl⟩
+example : (cloudBlob.after (blobHistory.take 1 ++ [blobCutOff])).active = [("x", 1), ("y", 4)] ∧
+    (blobStep (cloudBlob.after (blobHistory.take 1)) blobCutOff).calls =
+      [(.deleted "z", true), (.updated "y" 4, true)] := by decide
+/-- a single-blob url whose blob cannot be read to the end: the poll is abandoned, the rule set stays -/
+example : (⟨fun _ => true, .single "x" (some (.truncated 9)), []⟩ : BlobEvent String).incompleteFor "x" := ⟨rfl, rfl, rfl⟩
+example : (cloudBlob.after [⟨fun _ => true, .single "x" (some (.valid 1)), []⟩,
+    ⟨fun _ => true, .single "x" (some (.truncated 9)), []⟩]).active = [("x", 1)] := by decide
 
 /-- kubernetes: while the watch is down `a` is deleted and created anew (new uid), `b` is deleted, `c` appears -/
 def k8sHistory : List (List String × KEvent String) :=
